@@ -303,8 +303,9 @@ impl Envelope {
 
                 let signature_metadata_envelope = signature_object_subject.unwrap_envelope().unwrap();
                 if let Ok(signature) = signature_metadata_envelope.extract_subject::<Signature>() {
-                    let signing_target = self.subject();
-                    if !signing_target.is_signature_from_key(&signature, key) {
+                    // `is_signature_from_key` already verifies against this
+                    // envelope's subject, which is what `add_signature_opt` signed.
+                    if !self.is_signature_from_key(&signature, key) {
                         // The key signed the wrapper but not this subject:
                         // not a signature of this envelope by this key.
                         return None;
